@@ -19,11 +19,13 @@ KeyOK(x) == x.keytype = "ec" => x.keycfg \in {"encSetter", "signSetter"}
 IdpUrls == {"noquery", "query", "fragment", "queryfragment"}
 \* doc: the document that is transported. built = as the library builds it from plain settings; builtCR = built from
 \* settings whose strings contain CR / TAB / LF; caller = a document of the caller's own (XML declaration, comments
-\* outside the root element, default write settings, attributes of its own)
-DocKinds == {"built", "builtCR", "caller"}
+\* outside the root element, default write settings, attributes of its own, and a Destination of its own that differs
+\* from the configured endpoint: where the message is SENT is configuration, not content)
+\* callerBig: as caller, and well over 4 KiB when serialised (buffer boundaries of writers and encoders)
+DocKinds == {"built", "builtCR", "caller", "callerBig"}
 TakesDoc(x) == \/ x.binding = "redirect" /\ x.flow \in {"authn", "authnPostBinding", "logoutReq"}
                \/ x.binding = "post" /\ x.flow # "authn"
-DocOK(x) == /\ (x.doc = "caller" => TakesDoc(x))
+DocOK(x) == /\ (x.doc \in {"caller", "callerBig"} => TakesDoc(x))
             /\ (x.doc # "built" => (x.alg = "unset" /\ x.keycfg = "encField" /\ x.keytype = "rsa"))
 Redirect == { x \in [binding : {"redirect"}, flow : {"authn", "authnPostBinding", "authURL", "authRedirect", "logoutReq"}, relay : RelayClasses, idpurl : IdpUrls,
                      signReq : BOOLEAN, alg : Algs, keycfg : KeyCfgs, keytype : {"rsa", "ec"}, doc : DocKinds] : KeyOK(x) /\ DocOK(x) }
